@@ -335,16 +335,13 @@ var (
 
 // analyze reads the event log and stderr of a finished run.
 func (d *driver) analyze(res *runResult) {
-	recs, err := ev.ReadFile(filepath.Join(res.dir, "events.jsonl"))
-	if err != nil {
+	a := oracle.New()
+	nrec, err := ev.Scan(filepath.Join(res.dir, "events.jsonl"), a.Feed)
+	if err != nil && nrec == 0 {
 		res.rep = &oracle.Report{Stats: map[string]int64{}, Samples: map[string][]string{}, Inconclusive: []string{"no event log: " + err.Error()}}
 	} else {
-		a := oracle.New()
-		for _, r := range recs {
-			a.Feed(r)
-		}
 		res.rep = a.Finish()
-		res.events = len(recs)
+		res.events = nrec
 	}
 	if _, err := os.Stat(filepath.Join(res.dir, "result.json")); err == nil {
 		res.completed = true
